@@ -9,6 +9,7 @@ import (
 	"time"
 
 	netty "github.com/go-netty/go-netty"
+	"github.com/go-netty/go-netty/transport"
 )
 
 // ParkReader is the inbound handler that keeps the read loop parked inside
@@ -56,6 +57,10 @@ type RigOpts struct {
 	Plan     []Step
 	Tr       *RecTransport // optional pre-built transport
 	NoHooks  bool
+	// Wrap: run the channel on the library's own transport wrapper (transport.NewTransport) around the
+	// recording transport, with these read/write buffer sizes ([2]int{0,0} = the unbuffered wrapper): the
+	// recording then happens at the connection underneath the wrapper (Write calls only).
+	Wrap *[2]int
 	// OnPoint, if set, is called at every hook point of the channel before the plan is applied.
 	OnPoint func(p netty.VerifPoint)
 	// QuietTail installs an exception handler at the end that closes the channel
@@ -155,7 +160,11 @@ func NewRig(o RigOpts) *Rig {
 	if ctx == nil {
 		ctx = context.Background()
 	}
-	r.Ch = f(atomic.AddInt64(&rigID, 1), ctx, r.PL, r.T, r.Ex)
+	var tr transport.Transport = r.T
+	if o.Wrap != nil {
+		tr = transport.NewTransport(r.T, o.Wrap[0], o.Wrap[1])
+	}
+	r.Ch = f(atomic.AddInt64(&rigID, 1), ctx, r.PL, tr, r.Ex)
 	if !o.NoHooks {
 		fn := r.S.HookFn()
 		if o.OnPoint != nil {
